@@ -8,7 +8,9 @@ EXTENDS Pos, TLC, Json, SequencesExt, FiniteSets
 CONSTANTS MaxPieces
 Pieces == << <<97>>, <<10>>, <<13, 10>>, <<9>>, <<195, 169>>, <<226, 130, 172>>,                 \* a \n \r\n \t é €
              <<47, 42, 32, 120, 10, 121, 32, 42, 47>>, <<47, 47, 32, 99, 10>>,                   \* /* x\ny */   // c\n
-             <<96, 97, 10, 98, 96>>, <<34, 115, 34>>, <<32>>, <<123, 35, 32, 99, 10, 99, 32, 35, 125>> >>  \* `a\nb` "s" space {# c\nc #}
+             <<96, 97, 10, 98, 96>>, <<34, 115, 34>>, <<32>>, <<123, 35, 32, 99, 10, 99, 32, 35, 125>>,   \* `a\nb` "s" space {# c\nc #}
+             <<47, 42, 32, 120, 10, 121, 121, 10, 122, 32, 42, 47>>,                                \* /* x\nyy\nz */  (two line breaks)
+             <<123, 35, 32, 99, 10, 195, 169, 99, 10, 99, 32, 35, 125>> >>                          \* {# c\néc\nc #}  (two line breaks)
 NP == Len(Pieces)
 IsStartByte(b) == b < 128 \/ b >= 192
 \* the lexer's counters after consuming bytes s from (line, col)
@@ -30,7 +32,7 @@ TmplErr == << <<123, 123, 32, 120, 32, 125, 125>>, <<123, 37, 32, 105, 102, 32, 
               <<123, 123, 32, 49, 32, 43, 32, 34, 115, 34, 32, 125, 125>>, <<123, 37, 32, 101, 110, 100, 32, 37, 125>> >>
             \* {{ x }} | {% if %} | {{ "a }} | {{ 1 + "s" }} | {% end %}
 Seqs == UNION {[1..n -> 1..NP] : n \in 0..MaxPieces}
-ProgPieceOK(k) == k \notin {12}                               \* no template comments in Go files
+ProgPieceOK(k) == k \notin {12, 14}                               \* no template comments in Go files
 TmplPieceOK(k) == TRUE
 ProgHead == <<112, 97, 99, 107, 97, 103, 101, 32, 109, 97, 105, 110, 10>>                          \* package main\n
 ProgOpen == <<102, 117, 110, 99, 32, 109, 97, 105, 110, 40, 41, 32, 123, 10>>                      \* func main() {\n
